@@ -711,7 +711,7 @@ pub fn drive_c19(t: &Tier, m: &mut Matrix, sink: &mut Sink) {
             }
         }
         // conversions from longer vectors of the other implementations
-        for src in [Kind::D, Kind::A, Kind::F128x2, Kind::F8x3] {
+        for src in [Kind::D, Kind::A, Kind::F128x4, Kind::F8x3] {
             for n in [cap - 1, cap, cap + 1, cap + 70] {
                 if src.admits(n) {
                     for byval in [false, true] {
